@@ -171,7 +171,7 @@ def solve_queries(qtext):
             idx.append(e)
         else:
             keep[e] = None      # panic / error in the model
-    res = c05ops.z3_refute(scripts, hard_cap=30)
+    res = c05ops.z3_refute(scripts, hard_cap=15, timeout_ms=6000)
     for e, r in zip(idx, res):
         keep[e] = None if r is None or r["r"] not in ("sat", "unsat") else (r["r"] == "sat")
     return keep, items
